@@ -115,6 +115,15 @@ func collect(s *spec.Spec, env *model.Env, v val.V, path []string, steps []step,
 		w := w
 		add("wrong_type:"+s.Kind+"<-"+w.T, false, func(val.V) val.V { return w })
 	}
+	if (s.Kind == spec.KInt || s.Kind == spec.KFloat || s.Kind == spec.KEnumI) && s.Units != nil {
+		// unit notation that the grammar matches but the number behind it cannot be taken: a fraction for an integer,
+		// a count beyond 64 bits - and strings that are no unit sentence at all
+		base := s.Units.Base[0]
+		for _, str := range []string{"1.5" + base, "99999999999999999999999" + base, "1.5", "-", "5" + base + "x", "+5" + base} {
+			str := str
+			add("refused_unit_string", false, func(val.V) val.V { return val.Str(str) })
+		}
+	}
 	switch s.Kind {
 	case spec.KInt:
 		if s.Min != nil && *s.Min > -(1<<62) {
